@@ -75,6 +75,10 @@ pub fn info(prop: &str) -> Option<&'static PropInfo> {
 }
 
 pub fn run_case(prop: &str, seed: u64) -> (RunReport, Value) {
+    if prop == "C05" && seed % 3 == 0 {
+        // the job market on its own, driven by synthetic workers
+        return crate::s1::market::run_case(seed);
+    }
     if prop == "C10" && seed % 4 == 0 {
         // checker half: DFS with / without symmetry on symmetric process models
         return crate::s1::symmetry::run_case(seed);
@@ -97,6 +101,9 @@ pub fn replay(prop: &str, scenario: &Value) -> Result<RunReport, String> {
     if prop == "C10" && scenario.get("spec").is_some() {
         return crate::s1::symmetry::replay(scenario);
     }
+    if prop == "C05" && scenario.get("workers").is_some() {
+        return crate::s1::market::replay(scenario);
+    }
     if prop == "C18" {
         return if scenario.get("proto").is_some() { crate::s2::replay(prop, scenario) } else { crate::s4::replay(prop, scenario) };
     }
@@ -114,6 +121,9 @@ pub fn summary(prop: &str, scenario: &Value) -> Value {
     if prop == "C10" && scenario.get("spec").is_some() {
         return crate::s1::symmetry::summary(scenario);
     }
+    if prop == "C05" && scenario.get("workers").is_some() {
+        return crate::s1::market::summary(scenario);
+    }
     if prop == "C18" {
         return if scenario.get("proto").is_some() { crate::s2::summary(scenario) } else { crate::s4::summary(scenario) };
     }
@@ -130,6 +140,9 @@ pub fn summary(prop: &str, scenario: &Value) -> Value {
 pub fn shrink_candidates(prop: &str, scenario: &Value) -> Vec<Value> {
     if prop == "C10" && scenario.get("spec").is_some() {
         return crate::s1::symmetry::shrink_candidates(scenario);
+    }
+    if prop == "C05" && scenario.get("workers").is_some() {
+        return crate::s1::market::shrink_candidates(scenario);
     }
     if prop == "C18" {
         return if scenario.get("proto").is_some() { crate::s2::shrink_candidates(scenario) } else { crate::s4::shrink_candidates(scenario) };
